@@ -322,6 +322,11 @@ class SymInterp(Interp):
     def e_Set(self, e, env, func):
         return SetV([self.eval(x, env, func) for x in e.elts])
 
+    def exec_stmt(self, s, env, func):
+        if isinstance(s, ast.Return):
+            self.trace.append(("return", func.qualname, s))
+        return super().exec_stmt(s, env, func)
+
     # ---- loops ---------------------------------------------------------------
     def concrete_iter(self, it):
         if isinstance(it, SetV):
